@@ -472,6 +472,11 @@ func main() {
 	acc, notes := accessTable(*repo)
 	writeIfChanged(filepath.Join(*out, "Access.lean"), acc)
 
+	// ---- Lifecycle.lean (C11) ----------------------------------------------
+	lc, lnotes := lifecycleTable(proto)
+	writeIfChanged(filepath.Join(*out, "Lifecycle.lean"), lc)
+	notes = append(notes, lnotes...)
+
 	for _, m := range missing {
 		fmt.Println("extract: missing", m)
 	}
